@@ -98,7 +98,7 @@ def newmark_part(run, np, ode):
     scheds = {nt: [tuple(x) for x in s] for nt, s in res.tagged("SCHED")}
     rng = np.random.default_rng(run.seed)
     lattice = list(itertools.product(("diag", "full"), ("none", "vec", "mat", "singular"), (False, True), ("zero", "d0v0"), (0, 1, 2), sorted(scheds)))
-    for li, (coup, mform, rf, ic, nnl, nt) in enumerate(lattice):
+    for li, (coup, mform, rf, ic, nnl, nt) in enumerate(list(lattice) * (1 if run.tier == "quick" else 30)):
         if coup == "diag" and mform == "mat" and li % 2:
             continue
         if rf and nnl:
@@ -196,7 +196,7 @@ def cdf_part(run, np, ode):
     run.add_tlc("MC_OdeModel.cfg", res, "exact diagonal step terms reused for the CDF defining relation")
     rng = np.random.default_rng(run.seed + 3)
     from . import odesys
-    for trial in range(36 if run.tier == "quick" else 360):
+    for trial in range(36 if run.tier == "quick" else 1500):
         nrb, nel, nrf = [(0, 3, 0), (1, 2, 0), (0, 2, 1), (2, 3, 1), (1, 3, 2), (0, 4, 2)][trial % 6]
         order = (trial // 2) % 2
         # every third system has its rb / elastic / rf equations interspersed (tsolve accepts any partition; only the generators ask
@@ -267,7 +267,7 @@ def laws_part(run, np, ode):
         if any(not np.allclose(x_, y_, rtol=0, atol=1e-12 * max(np.abs(x_).max(), 1e-300)) for x_, y_ in ((a.d, b.d), (a.v, b.v), (a.a, b.a))):
             run.violation("with diagonal damping SolveCDF is not identical to SolveUnc", {"trial": trial}, {"solver": "SolveCDF"})
     # convergence ladder against the exact solver
-    for trial in range(6 if run.tier == "quick" else 40):
+    for trial in range(6 if run.tier == "quick" else 120):
         consistent = trial % 2 == 0
         n = 3
         md = rng.uniform(0.5, 2, n); w = rng.uniform(8, 30, n); z = rng.uniform(0.02, 0.2, n)
